@@ -342,12 +342,12 @@ def offending_sites(ctx):
             "(filter (fun s => negb (mention_ok s)) c06_hash_mentions)).\n"
             "Eval vm_compute in (map (fun h => (hh_file h, hh_fn h, hh_type h, hh_method h, hh_line h)) "
             "(filter (fun h => negb (hasher_ok h)) c06_hasher_sites)).\n"
-            "Eval vm_compute in (map (fun h => (hs_file h, hs_fn h, hs_name h, hs_method h, hs_line h)) "
-            "(filter (fun h => negb (hsite_ok h && hsite_resolved h)) c06_bin_hash_sites) ++ "
-            "map (fun s => (ss_file s, ss_fn s, ss_kind s, ss_text s, ss_line s)) "
-            "(filter (fun s => negb (bin_ssite_ok s)) c06_bin_shared_sites) ++ "
-            "map (fun s => (ss_file s, ss_fn s, ss_kind s, ss_text s, ss_line s)) "
-            "(filter (fun s => negb (mention_ok s)) c06_bin_hash_mentions)).\n"
+            "Eval vm_compute in (List.app (map (fun h => (hs_file h, hs_fn h, hs_name h, hs_method h, hs_line h)) "
+            "(filter (fun h => negb (hsite_ok h && hsite_resolved h)) c06_bin_hash_sites)) (List.app "
+            "(map (fun s => (ss_file s, ss_fn s, ss_kind s, ss_text s, ss_line s)) "
+            "(filter (fun s => negb (bin_ssite_ok s)) c06_bin_shared_sites)) "
+            "(map (fun s => (ss_file s, ss_fn s, ss_kind s, ss_text s, ss_line s)) "
+            "(filter (fun s => negb (mention_ok s)) c06_bin_hash_mentions)))).\n"
             "Eval vm_compute in (string_hash_fixed c06_hasher_sites, forbid_ok c06_forbid_unsafe, cache_per_call_ok, gen_fns_ok,\n"
             "  c06_cache_new_sites, c06_cache_escapes, filter (fun g => negb (gf_shape_ok g)) c06_gen_id_fns, c06_scanner_selftest).\n")
     rc, out = ctx.coq_eval('c06_offenders', "From Coq Require Import String List Bool ZArith.\nImport ListNotations.\nLocal Open Scope string_scope.\nLocal Open Scope Z_scope.\n" + body, SITE_IMPORTS)
